@@ -203,9 +203,10 @@ class GeminiClientProtocol(asyncio.Protocol):
                             break
                 try:
                     body = self.buffer.decode(charset)
-                except (UnicodeError, LookupError) as e:
+                except (ValueError, LookupError) as e:
                     # LookupError: the declared charset is unknown to Python or
-                    # is not a text encoding
+                    # is not a text encoding; ValueError covers UnicodeError and
+                    # labels that are not valid codec names (embedded NUL)
                     self.response_future.set_exception(e)
                     return
             else:
@@ -446,9 +447,10 @@ class TitanClientProtocol(asyncio.Protocol):
                             break
                 try:
                     body = self.buffer.decode(charset)
-                except (UnicodeError, LookupError) as e:
+                except (ValueError, LookupError) as e:
                     # LookupError: the declared charset is unknown to Python or
-                    # is not a text encoding
+                    # is not a text encoding; ValueError covers UnicodeError and
+                    # labels that are not valid codec names (embedded NUL)
                     self.response_future.set_exception(e)
                     return
             else:
